@@ -193,7 +193,13 @@ pub fn run(args: &Args, rep: &mut Report) {
         let mut rng = rng_for(args.seed, args.shard, 13, case);
         let plan = gen_plan(&mut rng, small || case % 3 != 0);
         // (1) clean run
-        let out = execute(args.seed ^ case, &plan);
+        let out = match vcommon::catch(|| execute(args.seed ^ case, &plan)) {
+            Ok(o) => o,
+            Err(p) => {
+                rep.violation(format!("panic|{}|noise-stream", p.loc()), format!("clean session panicked: {}; plan {plan:?}", p.message), json!({"case": case, "tamper": "none"}));
+                continue;
+            }
+        };
         rep.evaluations += 1;
         rep.count("clean_sessions");
         rep.add("plaintext_bytes_checked", out.sent.len() as u64);
@@ -256,7 +262,13 @@ pub fn run(args: &Args, rep: &mut Report) {
         for t in tampers {
             let mut p2 = plan.clone();
             p2.tamper = t.clone();
-            let o = execute(args.seed ^ case, &p2);
+            let o = match vcommon::catch(|| execute(args.seed ^ case, &p2)) {
+                Ok(o) => o,
+                Err(p) => {
+                    rep.violation(format!("panic|{}|noise-stream", p.loc()), format!("session with {t:?} panicked: {}", p.message), json!({"case": case, "tamper": format!("{t:?}")}));
+                    continue;
+                }
+            };
             rep.evaluations += 1;
             rep.count("tampered_sessions");
             rep.count(&format!("tamper_{}", format!("{t:?}").split(' ').next().unwrap_or("?")));
